@@ -343,6 +343,68 @@ def capture_probability_map(pq, simname, ins0, d, sub, cutoff, inp):
     return {tuple(int(x) for x in k): float(np.real(v)) for k, v in captured[0].items()}
 
 
+def part_distinguishable_sampler(ctx, pq, quick, rng):
+    """PqDistinguish reference law (internal states as extra modes, by definition) vs the exact law of the samplers for partially
+    distinguishable photons: uniform overlap (particle separation + chain rule), with post-selection (conditioned distinguishable
+    output), with loss, and the general Gram-matrix sampler."""
+    from piquasso.api.exceptions import NotImplementedCalculation
+    from .. import distinguish_replay as DR
+    counters = ctx.notes.setdefault("distinguishable_sampler", {"laws": 0, "paths": 0, "uniform": 0, "gram": 0, "lossy": 0, "postselected": 0, "not_implemented": 0, "skipped_known_table": 0})
+    for (d, nc, photons, ng, depth, with_loss) in c05.dist_plans(quick, rng):
+        gates = L.passive_catalogue(d, rng=rng, size=ng, with_kerr=False)
+        losses = [L.loss(i, t) for i in range(d) for t in rng.sample(["4/5", "1/sqrt2"], 1)] if with_loss else []
+        recs = DR.explore(ctx, d, nc, gates, photons, depth, losses)
+        if quick and len(recs) > 70:
+            recs = rng.sample(recs, 70)
+        for rec in recs:
+            ph, law = rec["photons"], rec["law"]
+            ins, name, lossy = c05.dist_program(pq, d, ph, gates, losses, rec["steps"])
+            variants = [None]
+            cands = sorted({(m, s[m]) for s, p in law.items() if p > 1e-9 for m in range(d)})
+            if cands:
+                variants.append(rng.choice(cands))
+            for post in variants:
+                ins2 = list(ins)
+                if post is None:
+                    exp, rest = dict(law), list(range(d))
+                else:
+                    m, k = post
+                    ins2.append(pq.PostSelectPhotons(photon_counts=(k,)).on_modes(m))
+                    rest = [i for i in range(d) if i != m]
+                    exp = {tuple(s[i] for i in rest): p for s, p in law.items() if s[m] == k}
+                tot_exp = sum(exp.values())
+                exp = {o: p / tot_exp for o, p in exp.items()}
+                ins2.append(pq.ParticleNumberMeasurement().on_modes(*rest))
+                cplx = any(any(x[2] != 0 or x[3] != 0 for row in gates[st["gate"] - 1]["M"] for x in row) for st in rec["steps"] if "gate" in st)
+                tag = (f"lossy:{'complex' if cplx else 'real'}-transmission" if lossy else "lossless") + f":{ph['kind']}:{'post' if post else 'nopost'}"
+                key = f"C02:law:Passive:distinguishable:{tag}"
+                replay = {"occupation": ph["occ"], "overlap": np.asarray(ph["overlap"]).tolist() if ph["kind"] == "gram" else ph["overlap"], "steps": name, "postselect": post}
+                ctx.case((ph["occ"], ph["kind"], repr(replay["overlap"]), tuple(name), post))
+                try:
+                    acc, tot, rej, npaths, bad = impl_law(pq, pq.PassiveSimulator, ins2, d, trials=1, max_paths=30000)
+                except SP.Unsupported as e:
+                    ctx.notes.setdefault("unsupported", []).append(str(e))
+                    continue
+                except NotImplementedCalculation:
+                    counters["not_implemented"] += 1
+                    continue
+                counters["laws"] += 1
+                counters["paths"] += npaths
+                counters[ph["kind"]] += 1
+                counters["lossy"] += lossy
+                counters["postselected"] += post is not None
+                what = f"PassiveSimulator sampling of partially distinguishable photons ({ph['kind']} overlap) after {name} on {ph['occ']}" + (f", post-selected on mode {post[0]} = {post[1]}" if post else "")
+                if abs(tot - 1.0) > 1e-9 or bad:
+                    ctx.report(key + ":mass", f"{what}: decision probabilities do not add up to 1 ({tot:.12f})", replay)
+                    continue
+                got = {o[0]: w for o, w in acc.items()}
+                if any(len(o) != len(rest) for o in got):
+                    ctx.report(key + ":shape", f"{what}: a sample does not have one entry per measured mode", replay)
+                    continue
+                if not compare_laws(ctx, key, what, got, tot - rej, exp, replay, tol=1e-8):
+                    ctx.validated()
+
+
 # ------------------------------------------------------------------------------------------------------------
 class NormalRecorder:
     """stands in for config.rng of the Gaussian simulator: records what multivariate_normal is asked for"""
@@ -438,5 +500,7 @@ def run(ctx):
     ctx.tick("chain_sampler")
     part_reference_state(ctx, pq, quick, rng)
     ctx.tick("reference_state")
+    part_distinguishable_sampler(ctx, pq, quick, rng)
+    ctx.tick("distinguishable_sampler")
     part_generaldyne(ctx, pq, quick, rng)
     ctx.tick("generaldyne")
